@@ -11,7 +11,8 @@ def sh(cmd, cwd, env=None, timeout=900):
 def main():
     pid, variant = sys.argv[1], sys.argv[2]
     wt = f"/tmp/seed/{pid}"
-    sd = f"{wt}/_seed/{variant}"
+    sdir = sys.argv[3] if len(sys.argv) > 3 else "_seed"
+    sd = f"{wt}/{sdir}/{variant}"
     out = {"id": f"{pid}-{variant}", "property": pid}
     env = {"PYTHONPATH": wt, "PYTHONDONTWRITEBYTECODE": "1"}
     sh("git checkout -- . ", wt)
